@@ -13,13 +13,15 @@ Definition nofloat_key (k : gokey) : bool :=
 Lemma gokey_refl : forall k, nofloat_key k = true -> gokey_eqb k k = true.
 Proof.
   intros [] H; simpl in *; try discriminate; auto; try apply Z.eqb_refl; try apply N.eqb_refl; try apply lN_eqb_refl.
-  rewrite !N.eqb_refl. reflexivity.
+  - rewrite eqb_reflx, Z.eqb_refl. reflexivity.
+  - rewrite !N.eqb_refl. reflexivity.
 Qed.
 Lemma gokey_sym : forall a b, nofloat_key a = true -> nofloat_key b = true -> gokey_eqb a b = gokey_eqb b a.
 Proof.
-  intros [| |x|k m e|x|x|x|x|n1 d1|k1 w1|] [| |y|k' m' e'|y|y|y|y|n2 d2|k2 w2|] _ _; simpl; auto;
+  intros [| |x|k m e|x|x|x|x|n1 d1|u1 v1|k1 w1|] [| |y|k' m' e'|y|y|y|y|n2 d2|u2 v2|k2 w2|] _ _; simpl; auto;
     try apply Z.eqb_sym; try apply N.eqb_sym; try apply lN_eqb_sym.
   - rewrite fkind_eqb_sym. f_equal. apply (dy_eqb_sym (m, e) (m', e')).
+  - rewrite (Z.eqb_sym v1 v2). destruct u1, u2; reflexivity.
   - rewrite (N.eqb_sym k1 k2), (N.eqb_sym w1 w2). reflexivity.
 Qed.
 Lemma gokey_trans : forall a b c, nofloat_key a = true -> nofloat_key b = true -> nofloat_key c = true ->
@@ -34,6 +36,8 @@ Proof.
   - apply Z.eqb_eq in H1, H2. subst. apply Z.eqb_refl.
   - apply Z.eqb_eq in H1, H2. apply Z.eqb_eq. apply Z.ltb_lt in Ha, Hb, Hc.
     apply (Z.mul_cancel_r _ _ d0); [lia|]. transitivity (n0 * d * d1)%Z; [nia|]. nia.
+  - apply andb_true_iff in H1 as [A1 B1]. apply andb_true_iff in H2 as [A2 B2].
+    apply eqb_prop in A1, A2. apply Z.eqb_eq in B1, B2. subst. rewrite eqb_reflx, Z.eqb_refl. reflexivity.
   - apply andb_true_iff in H1 as [A1 B1]. apply andb_true_iff in H2 as [A2 B2].
     apply N.eqb_eq in A1, A2, B1, B2. subst. rewrite !N.eqb_refl. reflexivity.
 Qed.
@@ -161,50 +165,55 @@ Section SimpleRefs.
   Qed.
 End SimpleRefs.
 
-Theorem simple_pool_ok : forall pool,
-  simple_pool pool = true ->
-  (forall a b, In a pool -> In b pool -> consistent2 a b /\ const_words a b) ->
-  pool_ok pool (pool_test 1 pool) = true.
+Theorem simple_pool_ok : forall rs,
+  simple_pool rs = true ->
+  (forall a b, In a rs -> In b rs -> consistent2 a b /\ const_words a b) ->
+  pool_ok (map TRef rs) (pool_test 1 (map TRef rs)) = true.
 Proof.
-  intros pool S C.
-  assert (Sk : forall i a, nth_error pool i = Some a -> In a pool /\ simple_key (r_obj a) = true).
+  intros rs S C. set (pool := map TRef rs).
+  assert (Len : List.length pool = List.length rs) by apply map_length.
+  assert (NP : forall i a, nth_error rs i = Some a -> nth_error pool i = Some (TRef a)).
+  { intros i a H. apply map_nth_error. exact H. }
+  assert (Sk : forall i a, nth_error rs i = Some a -> In a rs /\ simple_key (r_obj a) = true).
   { intros i a H. apply nth_error_In in H. split; auto. unfold simple_pool in S. rewrite forallb_forall in S. auto. }
-  assert (Nth : forall i, i < List.length pool -> exists a, nth_error pool i = Some a).
-  { intros i Hi. destruct (nth_error pool i) eqn:E; eauto. apply nth_error_None in E. lia. }
-  assert (HK : forall i a, nth_error pool i = Some a -> key_hashable pool i = negb (is_lst (r_obj a))).
-  { intros i a Ea. unfold key_hashable, key_ok, key_at. rewrite Ea. simpl. rewrite (simple_hashable a (proj2 (Sk i a Ea))).
+  assert (Nth : forall i, i < List.length pool -> exists a, nth_error rs i = Some a).
+  { intros i Hi. destruct (nth_error rs i) eqn:E; eauto. apply nth_error_None in E. lia. }
+  assert (HK : forall i a, nth_error rs i = Some a -> key_hashable pool i = negb (is_lst (r_obj a))).
+  { intros i a Ea. unfold key_hashable, key_ok, key_at. rewrite (NP i a Ea). simpl. rewrite (simple_hashable a (proj2 (Sk i a Ea))).
     destruct (is_lst (r_obj a)); reflexivity. }
   unfold pool_ok. apply andb_true_iff. split.
   - (* coherent *) unfold pool_coherent. apply forallb_seq_intro. intros i Hi. apply forallb_seq_intro. intros j Hj.
     destruct (Nth i Hi) as [a Ea]. destruct (Nth j Hj) as [b Eb].
     destruct (Sk i a Ea) as [Ia Sa]. destruct (Sk j b Eb) as [Ib Sb]. destruct (C a b Ia Ib) as [C1 C2].
-    rewrite (HK i a Ea), (HK j b Eb). unfold pool_test, same_key, key_at. rewrite Ea, Eb. simpl.
+    rewrite (HK i a Ea), (HK j b Eb). unfold pool_test, same_key, key_at. rewrite (NP i a Ea), (NP j b Eb). simpl.
     destruct (is_lst (r_obj a)) eqn:La; destruct (is_lst (r_obj b)) eqn:Lb; simpl; auto.
     + rewrite (simple_sep a b Sa) by (rewrite La, Lb; reflexivity). reflexivity.
     + rewrite (simple_sep a b Sa) by (rewrite La, Lb; reflexivity). reflexivity.
     + rewrite (eql_is_gokey a b Sa Sb La Lb C1 C2). apply eqb_reflx.
   - (* the test is an equivalence on the pool *)
     unfold pool_equiv. apply andb_true_iff. split; [apply andb_true_iff; split|].
-    + apply forallb_seq_intro. intros i Hi. destruct (Nth i Hi) as [a Ea]. unfold pool_test. rewrite Ea. simpl.
+    + apply forallb_seq_intro. intros i Hi. destruct (Nth i Hi) as [a Ea]. unfold pool_test. rewrite (NP i a Ea). simpl.
       unfold eql_m. rewrite eq_m_refl. reflexivity.
     + apply forallb_seq_intro. intros i Hi. apply forallb_seq_intro. intros j Hj.
-      destruct (Nth i Hi) as [a Ea]. destruct (Nth j Hj) as [b Eb]. unfold pool_test. rewrite Ea, Eb. simpl.
+      destruct (Nth i Hi) as [a Ea]. destruct (Nth j Hj) as [b Eb]. unfold pool_test. rewrite (NP i a Ea), (NP j b Eb). simpl.
       destruct (Sk i a Ea) as [Ia Sa]. destruct (Sk j b Eb) as [Ib Sb].
       rewrite (simple_sym a b Sa Sb (C a b Ia Ib) (C b a Ib Ia)). apply eqb_reflx.
     + apply forallb_seq_intro. intros i Hi. apply forallb_seq_intro. intros j Hj. apply forallb_seq_intro. intros k Hk.
       destruct (Nth i Hi) as [a Ea]. destruct (Nth j Hj) as [b Eb]. destruct (Nth k Hk) as [c Ec].
-      unfold pool_test. rewrite Ea, Eb, Ec. simpl.
+      unfold pool_test. rewrite (NP i a Ea), (NP j b Eb), (NP k c Ec). simpl.
       destruct (Sk i a Ea) as [Ia Sa]. destruct (Sk j b Eb) as [Ib Sb]. destruct (Sk k c Ec) as [Ic Sc].
       destruct (eql_m a b) eqn:E1; simpl; auto. destruct (eql_m b c) eqn:E2; simpl; auto.
       apply (simple_trans a b c Sa Sb Sc (C a b Ia Ib) (C b c Ib Ic) (C a c Ia Ic) E1 E2).
 Qed.
 
-Theorem table_is_map_on_simple_keys : forall pool ops,
-  simple_pool pool = true ->
-  (forall a b, In a pool -> In b pool -> consistent2 a b /\ const_words a b) ->
-  forallb (op_in_range (List.length pool)) ops = true ->
-  Forall2 obs_equiv (t_run pool [] ops) (s_run pool (pool_test 1 pool) [] ops).
-Proof. intros pool ops S C R. apply table_refines_map; auto. apply simple_pool_ok; auto. Qed.
+Theorem table_is_map_on_simple_keys : forall rs ops,
+  simple_pool rs = true ->
+  (forall a b, In a rs -> In b rs -> consistent2 a b /\ const_words a b) ->
+  forallb (op_in_range (List.length rs)) ops = true ->
+  Forall2 obs_equiv (t_run (map TRef rs) [] ops) (s_run (map TRef rs) (pool_test 1 (map TRef rs)) [] ops).
+Proof.
+  intros rs ops S C R. apply table_refines_map; auto. apply simple_pool_ok; auto. rewrite map_length. exact R.
+Qed.
 
 Lemma refs_reflexive : forall a, eql_m a a = true /\ equal_m a a = true /\ equalp_m a a = true.
 Proof. intro a. unfold eql_m, equal_m, equalp_m. rewrite eq_m_refl. auto. Qed.
